@@ -273,7 +273,7 @@ def _style_sym(docstring):
     m = impl()
     dp = m.docstring_parsers
     seen = {}
-    orig_scan, orig_parse = dp._scan_phase, dp._parse_phase
+    orig_scan = dp._scan_phase
 
     def spy_scan(d, style=dp.Style.rest):
         seen["style"] = style
@@ -286,7 +286,7 @@ def _style_sym(docstring):
         except _Stop:
             pass
     finally:
-        dp._scan_phase, dp._parse_phase = orig_scan, orig_parse
+        dp._scan_phase = orig_scan
     if "style" not in seen:
         # `if not docstring: return ir` came first; the cascade itself still ran: recompute it the way the code does
         from functools import partial
@@ -438,6 +438,20 @@ def c01_rest_impl(case):
     except Exception as e:  # noqa
         return False, "parse.docstring raised %s" % type(e).__name__, None
     return True, "", got
+
+
+def c01_rest_check_case(case):
+    """replay of one oracle case {ir, word_wrap, keep_sentence}: (holds, what)"""
+    ok, what, got = c01_rest_impl(case)
+    if not ok:
+        return False, what
+    o = loads(run_model([dumps([Sym("c01_same_interface"), case["keep_sentence"],
+                                irwire.enc_ir(ir_from_json(case["ir"])), irwire.enc_ir(got)])])[0])
+    if o == "bad-request":
+        return False, "parsed IR not encodable for comparison"
+    names = ["summary", "parameters (names, order, types, prose, defaults)", "return entry"]
+    bad = [nm for nm, x in zip(names, o) if x != "true"]
+    return (not bad), ("differs in: " + "; ".join(bad) if bad else "")
 
 
 def oracle_rest(rng, n):
